@@ -1,0 +1,18 @@
+//go:build verif
+// +build verif
+
+package cluster
+
+// Hooks for the verification harness (/verif, property C18). Add-only: an in-memory
+// register living outside this package has to stamp the unexported epochs exactly like
+// the etcd register does after a successful write or read.
+
+// VerifSetEpoch sets the compare-and-swap generation of a partition replica info.
+func (self *PartitionReplicaInfo) VerifSetEpoch(e EpochType) {
+	self.epoch = e
+}
+
+// VerifSetMetaEpoch sets the generation of a namespace meta info.
+func (self *NamespaceMetaInfo) VerifSetMetaEpoch(e EpochType) {
+	self.metaEpoch = e
+}
